@@ -148,7 +148,8 @@ CLAIMED.update({
            'repository compiler and run through the real step() / resume() from the IR on symbolic stack cells and input bytes: final stack, variables, input position '
            'and error equal the documented result, and one uninterrupted run, repeated single steps and the same program with pause words resumed until done agree; (e) write_add_int32/int64 (`+<-`) of '
            'integer and floating-point output buffers: previous item (any bit pattern) plus the value, summed exactly in the output type.',
-           'Tokenizer/compiler/decompiler are exercised only on the concrete templates; float / nbit / varint / textual reads and output writes at program level, and '
+           'Variable-length and bit-packed reads at program level: varint-> (1, 2, 3 and 9 byte encodings, too-big error), zigzag->, and #Nbit-> / #!Nbit-> for N in {1, 3, 8, 12, 31, 32, 33, 57, 58, 63, 64} against a bit-stream oracle (two items, so the second is unaligned). '
+           'Tokenizer/compiler/decompiler are exercised only on the concrete templates; float reads to the stack, textual reads, and '
            'recursion-limit faults are outside. Case guards fix trip counts (<= 4) and branch outcomes; other values symbolic. Struct layout from the IR type table.',
            'DESIGN.md sections 3 (C19) and 9.5', 'SMT bounded model checking of C++ method LLVM IR (llbmc M-harness); native replay through the real compiler and interpreter'),
 })
